@@ -343,6 +343,15 @@ func (s *Sim) obsRoots() {
 			continue
 		}
 		emit("obs %s roots %d %s", in.label, n, hxs(roots))
+		if in.mp != nil {
+			// the verifier snapshot of the map forest must be the same whole-block state
+			var st u.Stump
+			if r := guard(watchdog, func() { st = in.mp.GetStump() }); r != "ok" {
+				emit("obs %s roots %s", in.label, r)
+			} else {
+				emit("obs %s roots %d %s", in.label, st.NumLeaves, hxs(st.Roots))
+			}
+		}
 	}
 }
 
